@@ -238,49 +238,7 @@ func checkC20(c *Ctx) {
 	}
 
 	// ---- T5 family gates of the decoders
-	hdrType := P.Field("rtcm/header", "Header", "MessageType")
-	for _, fam := range []struct {
-		pkg  string
-		want TySet
-		nm   string
-	}{{"rtcm/type_msm4/message", msm4, "MSM4"}, {"rtcm/type_msm7/message", msm7, "MSM7"}} {
-		fn := P.Func(fam.pkg, "GetMessage")
-		if fn == nil || hdrType == nil {
-			c.Unresolved("C20-T5", "func "+fam.pkg+".GetMessage / field header.Header.MessageType")
-			continue
-		}
-		if st := storesToField(fn, hdrType); len(st) > 0 {
-			c.Fail("C20-T5", fam.nm+":store-to-type", st[0].Pos(), "refuted", "decoder overwrites Header.MessageType")
-			continue
-		}
-		pa := T.Partition(fn, fieldSubject(hdrType), false)
-		// the construction (successful return) must be reached exactly for the family
-		var okSet TySet
-		nOK := 0
-		for _, r := range returnsOf(fn) {
-			if len(r.Results) == 2 && isNilConst(r.Results[1]) {
-				okSet = okSet.Or(pa.Reach[r.Block()])
-				nOK++
-			}
-		}
-		// compose with the header reader's accept set (T4): only MSM types arrive
-		okSet = okSet.And(msm)
-		c.Check(nOK > 0 && okSet.Eq(fam.want), "C20-T5", fam.nm+":family-gate", fn.Pos(),
-			"successful decode reachable exactly for "+fam.want.String(),
-			fmt.Sprintf("%s decoder succeeds for %v, expected exactly %v", fam.nm, okSet, fam.want))
-		// every cell-decoding call is gated too
-		eachInstr(fn, func(ins ssa.Instruction) {
-			f := staticCallee(ins)
-			if f == nil || !P.InModule(f) {
-				return
-			}
-			if f.Name() == "GetSatelliteCells" || f.Name() == "GetSignalCells" {
-				s := pa.Reach[ins.Block()].And(msm)
-				c.Check(s.Subset(fam.want), "C20-T5", fam.nm+":gate("+f.Name()+")", ins.Pos(),
-					"cell decoding only for the family", fmt.Sprintf("%s reached for %v", f.Name(), s.Minus(fam.want)))
-			}
-		})
-	}
+	ruleFamilyGates(c, T, "C20-T5", msm4, msm7, msm)
 
 	// ---- T6 timestamp extraction guarded by MSM
 	checkC20Timestamp(c, T, msm)
@@ -802,4 +760,54 @@ func sortedKeysSet(m map[string]TySet) []string {
 	}
 	sort.Strings(out)
 	return out
+}
+
+// ruleFamilyGates: each MSM decoder family succeeds exactly for its own types
+// and decodes cells only for them (C20-T5, C04-R7).
+func ruleFamilyGates(c *Ctx, T *Tables, rule string, msm4, msm7, msm TySet) {
+	P := c.P
+	hdrType := P.Field("rtcm/header", "Header", "MessageType")
+	for _, fam := range []struct {
+		pkg  string
+		want TySet
+		nm   string
+	}{{"rtcm/type_msm4/message", msm4, "MSM4"}, {"rtcm/type_msm7/message", msm7, "MSM7"}} {
+		fn := P.Func(fam.pkg, "GetMessage")
+		if fn == nil || hdrType == nil {
+			c.Unresolved(rule, "func "+fam.pkg+".GetMessage / field header.Header.MessageType")
+			continue
+		}
+		if st := storesToField(fn, hdrType); len(st) > 0 {
+			c.Fail(rule, fam.nm+":store-to-type", st[0].Pos(), "refuted", "decoder overwrites Header.MessageType")
+			continue
+		}
+		pa := T.Partition(fn, fieldSubject(hdrType), false)
+		// the construction (successful return) must be reached exactly for the family
+		var okSet TySet
+		nOK := 0
+		for _, r := range returnsOf(fn) {
+			if len(r.Results) == 2 && isNilConst(r.Results[1]) {
+				okSet = okSet.Or(pa.Reach[r.Block()])
+				nOK++
+			}
+		}
+		// compose with the header reader's accept set (T4): only MSM types arrive
+		okSet = okSet.And(msm)
+		c.Check(nOK > 0 && okSet.Eq(fam.want), rule, fam.nm+":family-gate", fn.Pos(),
+			"successful decode reachable exactly for "+fam.want.String(),
+			fmt.Sprintf("%s decoder succeeds for %v, expected exactly %v", fam.nm, okSet, fam.want))
+		// every cell-decoding call is gated too
+		eachInstr(fn, func(ins ssa.Instruction) {
+			f := staticCallee(ins)
+			if f == nil || !P.InModule(f) {
+				return
+			}
+			if f.Name() == "GetSatelliteCells" || f.Name() == "GetSignalCells" {
+				s := pa.Reach[ins.Block()].And(msm)
+				c.Check(s.Subset(fam.want), rule, fam.nm+":gate("+f.Name()+")", ins.Pos(),
+					"cell decoding only for the family", fmt.Sprintf("%s reached for %v", f.Name(), s.Minus(fam.want)))
+			}
+		})
+	}
+
 }
